@@ -121,6 +121,12 @@ _rm.ensures.append(_Clause("complete-request-is-not-5005",
     "implies(is_req(msg) and has_avp_def(msg) and len(missing(avp_defs(msg), msg)) == 0 and "
     "msg.header.command_code != 257 and "
     "len(out(conn)) == old(len(out(conn))) + 1, new_out(conn).result_code != 5005)"))
+_rm.ensures.append(_Clause("a-request-that-is-no-flagged-repeat-passes-validation-and-matches-an-application-is-delivered",
+    "implies(is_req(msg) and msg.header.command_code != 257 and msg.header.command_code != 280 and "
+    "msg.header.command_code != 282 and not old(dup_cond(self, msg)) and "
+    "(not old(self.validate_received_request_avps) or not has_avp_def(msg) or len(missing(avp_defs(msg), msg)) == 0) and "
+    "old(hasattr(msg, 'destination_realm')) and old(realm_of(msg) in self._peer_routes) and "
+    "old(app_matches(self, conn, realm_of(msg), w, msg.header.application_id)), not no_delivery(self))"))
 if "C08" not in _rm.props:
     _rm.props.append("C08")
 
